@@ -91,10 +91,10 @@ Proof.
 Qed.
 
 (* first-occurrence order: the table is the de-duplicated list of the non-null cells *)
-Lemma filter_filter_comm {A} (p q : A -> bool) l : filter p (filter q l) = filter q (filter p l).
+Lemma filter_filter {A} (p q : A -> bool) l : filter p (filter q l) = filter (fun x => q x && p x) l.
 Proof.
   induction l as [|x l IH]; [reflexivity|]. cbn [filter].
-  destruct (q x) eqn:Q; destruct (p x) eqn:P; cbn [filter]; rewrite ?Q, ?P, IH; reflexivity.
+  destruct (q x) eqn:Q; cbn [filter andb]; [destruct (p x)|]; rewrite IH; reflexivity.
 Qed.
 
 Lemma first_occ_from_spec e : forall cells vals,
@@ -105,14 +105,10 @@ Proof.
   - rewrite app_nil_r. reflexivity.
   - fold (kept_cells e t). destruct (is_nilb c && e) eqn:N; cbn [negb]; [apply IH|].
     cbn [dedup_first filter]. destruct (mem c vals) eqn:M; cbn [negb].
-    + rewrite IH. f_equal. rewrite filter_filter_comm.
-      set (l := filter _ (dedup_first (kept_cells e t))).
-      symmetry. rewrite <- (filter_ext_in (fun _ => true)).
-      * clear. induction l as [|x l IH]; [reflexivity|]. cbn [filter]. rewrite IH. reflexivity.
-      * intros y Hy. unfold l in Hy. apply filter_In in Hy as [_ Hy].
-        destruct (bytes_eqb c y) eqn:E; [|reflexivity]. apply bytes_eqb_spec in E. subst y.
-        rewrite M in Hy. discriminate.
-    + rewrite IH, <- app_assoc. cbn [app]. f_equal. f_equal. rewrite filter_filter_comm.
+    + rewrite IH. f_equal. rewrite filter_filter. apply filter_ext_in. intros y Hy.
+      destruct (bytes_eqb c y) eqn:E; cbn [negb andb]; [|reflexivity].
+      apply bytes_eqb_spec in E. subst y. rewrite M. reflexivity.
+    + rewrite IH, <- app_assoc. cbn [app]. f_equal. f_equal. rewrite filter_filter.
       apply filter_ext. intros y. unfold mem. rewrite existsb_app. cbn [existsb]. rewrite orb_false_r.
       rewrite negb_orb, andb_comm. f_equal. f_equal. apply eq_true_iff_eq.
       split; intros H; apply bytes_eqb_spec in H; subst; apply bytes_eqb_refl.
@@ -121,8 +117,8 @@ Qed.
 Theorem first_occ_spec e cells : first_occ e cells = dedup_first (kept_cells e cells).
 Proof.
   unfold first_occ. rewrite first_occ_from_spec. cbn [app].
-  set (l := dedup_first _). clear. induction l as [|x l IH]; [reflexivity|]. cbn [filter mem existsb negb].
-  rewrite IH. reflexivity.
+  set (l := dedup_first _). clearbody l. induction l as [|x l IH]; [reflexivity|].
+  cbn [filter]. change (mem x []) with false. cbn [negb]. rewrite IH. reflexivity.
 Qed.
 
 Lemma find_last_notin s vals : ~ In s vals -> find_last s vals 0 None = None.
@@ -218,10 +214,11 @@ Lemma column_roundtrip2 e c ev :
   col_in_int64 c = true ->
   enum_side_ok e c = true ->
   card_ok e c = true ->
+  enum_decl_nodup c = true ->
   (forall vals l, c = ColEnum vals l -> ev = Some vals) ->
   column_to_data e (dtype_of (type_name c)) ev (col_strings c) = Ok (readback_col e c).
 Proof.
-  intros Hint Henum Hcard Hev.
+  intros Hint Henum Hcard Hndv Hev.
   destruct (strict_enum c) eqn:S.
   - rewrite (readback_strict e c S).
     apply (column_roundtrip format_float parse_float float_roundtrip); assumption.
@@ -230,6 +227,7 @@ Proof.
     rewrite (Hev [] l eq_refl). cbn [card_ok] in Hcard. apply Nat.leb_le in Hcard.
     unfold CsvRead.column_to_data. rewrite andb_false_r. cbn iota.
     change (Nat.ltb enum_max_cardinality (length (@nil bytes))) with false. cbn iota.
+    cbn [nodup_values negb].
     change (Nat.ltb 0 (length (@nil bytes))) with false. cbn [col_strings readback_col].
     unfold first_occ in *.
     destruct (enum_fill_nonstrict e (map opt_str l) [] [] Hcard) as (rs & H1 & H2).
@@ -239,7 +237,7 @@ Proof.
 Qed.
 
 Definition col_ok2 (e : bool) (nc : bytes * column) : bool :=
-  col_in_int64 (snd nc) && enum_side_ok e (snd nc) && card_ok e (snd nc).
+  col_in_int64 (snd nc) && enum_side_ok e (snd nc) && card_ok e (snd nc) && enum_decl_nodup (snd nc).
 
 Lemma convert_cols_rt2 conf e all :
   cf_types conf = ty_entries all -> cf_empty_null conf = e -> NoDup (map fst all) ->
@@ -253,7 +251,7 @@ Proof.
   intros Hty He Hnd. induction rest as [|[name col] rest IH]; intros acc Hsub Hnd2 Hok.
   - cbn. rewrite app_nil_r. reflexivity.
   - cbn [map fst snd convert_cols]. cbn [forallb] in Hok. apply andb_true_iff in Hok as [Hc Hrest].
-    unfold col_ok2 in Hc. cbn [snd] in Hc. apply andb_true_iff in Hc as [Hc Hcard].
+    unfold col_ok2 in Hc. cbn [snd] in Hc. apply andb_true_iff in Hc as [Hc Hndv]. apply andb_true_iff in Hc as [Hc Hcard].
     apply andb_true_iff in Hc as [Hint Henum].
     assert (assoc name (cf_types conf) = Some (type_name col)) as Ht.
     { rewrite Hty. apply assoc_in.
@@ -261,7 +259,7 @@ Proof.
       - unfold ty_entries. apply in_map_iff. exists (name, col). split; [reflexivity|]. apply Hsub. left. reflexivity. }
     rewrite Ht, He.
     cbn [map fst] in Hnd2. apply NoDup_cons_iff in Hnd2 as [Hnot Hnd2'].
-    rewrite (column_roundtrip2 e col); [| exact Hint | exact Henum | exact Hcard |].
+    rewrite (column_roundtrip2 e col); [| exact Hint | exact Henum | exact Hcard | exact Hndv |].
     + cbn [obind].
       assert ((if match dtype_of (type_name col) with DEnum => true | _ => false end
                then assoc_del name (ev_entries ((name, col) :: rest))
@@ -276,16 +274,18 @@ Proof.
     + intros vals l ->. unfold ev_entries. cbn [flat_map fst snd app assoc]. rewrite bytes_eqb_refl. reflexivity.
 Qed.
 
-(* the round trip with strict and non-strict enum columns *)
+(* the round trip with strict and non-strict enum columns; the declared value lists are duplicate-free
+   (enum_decl_nodup, Proofs/CsvReadProofs.v: the reader's enum factory rejects any other declaration) *)
 Theorem roundtrip2 f tc wf doc e :
   iter_cols f tc = Ok wf ->
   to_csv format_float f tc = Ok doc ->
   rt_premises e (frame_len f) wf = true ->
   forallb (fun nc => card_ok e (snd nc)) wf = true ->
+  forallb (fun nc => enum_decl_nodup (snd nc)) wf = true ->
   read_csv_spec atoi parse_float atob (read_conf_for e (tc_header tc) wf) doc
   = Ok (map (fun nc => (fst nc, readback_col e (snd nc))) wf).
 Proof.
-  intros Hiter Hcsv Hprem Hcard.
+  intros Hiter Hcsv Hprem Hcard Hndv.
   unfold rt_premises in Hprem. apply andb_true_iff in Hprem as [Hprem Hdup].
   apply andb_true_iff in Hprem as [Hne Hcols]. rewrite forallb_forall in Hcols.
   assert (wf <> []) as Hwf by (destruct wf; [discriminate | discriminate]).
@@ -350,7 +350,7 @@ Proof.
     rewrite Hcn. reflexivity.
   - auto.
   - apply forallb_forall. intros nc Hnc. unfold col_ok2.
-    rewrite forallb_forall in Hcard. rewrite (Hcard nc Hnc), andb_true_r.
+    rewrite forallb_forall in Hcard, Hndv. rewrite (Hcard nc Hnc), (Hndv nc Hnc), !andb_true_r.
     destruct (prem_parts e n nc (Hcols nc Hnc)) as (_ & _ & _ & P4 & P5 & _). rewrite P4, P5. reflexivity.
 Qed.
 
@@ -361,13 +361,514 @@ Theorem roundtrip_fragmented f tc wf doc e (chunks : list bytes) (t : rterm) :
   to_csv format_float f tc = Ok doc ->
   rt_premises e (frame_len f) wf = true ->
   forallb (fun nc => card_ok e (snd nc)) wf = true ->
+  forallb (fun nc => enum_decl_nodup (snd nc)) wf = true ->
   Forall (fun c : bytes => c <> []) chunks -> concat chunks = doc -> (t = TEofSep \/ t = TEofWith) ->
   read_csv_buf atoi parse_float atob (read_conf_for e (tc_header tc) wf) chunks t
   = Ok (map (fun nc => (fst nc, readback_col e (snd nc))) wf).
 Proof.
-  intros Hiter Hcsv Hprem Hcard Hne Hcat Ht.
+  intros Hiter Hcsv Hprem Hcard Hndv Hne Hcat Ht.
   rewrite (read_csv_buf_spec _ _ _ _ chunks t Hne Ht), Hcat.
   apply roundtrip2 with (f := f); assumption.
 Qed.
 
+(* ---------------------------------------------------------------- enum values NOT declared by the reader *)
+
+(* ReadCSV with Types{col: "enum"} but without EnumVals for it: whatever value table the written column had,
+   the reader derives its own.  [forget_vals] is the written column as such a reader is told about it. *)
+Definition forget_vals (c : column) : column :=
+  match c with ColEnum _ l => ColEnum [] l | c => c end.
+Definition forget_frame (f : frame) : frame := map (fun nc => (fst nc, forget_vals (snd nc))) f.
+
+Lemma col_strings_forget c : col_strings (forget_vals c) = col_strings c.
+Proof. destruct c; reflexivity. Qed.
+
+Lemma find_col_forget name : forall f,
+  find_col name (forget_frame f) = option_map (fun nc => (fst nc, forget_vals (snd nc))) (find_col name f).
+Proof.
+  induction f as [|[n c] f IH]; [reflexivity|]. cbn [forget_frame map fst snd find_col].
+  destruct (bytes_eqb n name); [reflexivity | exact IH].
+Qed.
+
+Lemma iter_cols_forget f tc wf : iter_cols f tc = Ok wf -> iter_cols (forget_frame f) tc = Ok (forget_frame wf).
+Proof.
+  unfold iter_cols. destruct (tc_columns tc) as [order|]; [|intros H; inversion H; reflexivity].
+  unfold forget_frame at 1. rewrite map_length.
+  destruct (negb (Nat.eqb (length order) (length f))); [discriminate|].
+  revert wf. induction order as [|name order IH]; intros wf H.
+  - cbn in H. inversion H. reflexivity.
+  - cbn [omap] in *. rewrite find_col_forget. destruct (find_col name f) as [nc|]; [|discriminate].
+    cbn [option_map obind] in *.
+    destruct (omap (fun name0 => match find_col name0 f with Some nc0 => Ok nc0 | None => Fail end) order)
+      as [ys| |]; try discriminate.
+    rewrite (IH ys eq_refl). cbn [obind] in *. inversion H. reflexivity.
+Qed.
+
+Lemma to_csv_forget f tc wf :
+  iter_cols f tc = Ok wf -> to_csv format_float (forget_frame f) tc = to_csv format_float f tc.
+Proof.
+  intros E. unfold to_csv, to_csv_records.
+  assert (frame_len (forget_frame f) = frame_len f) as Hl.
+  { destruct f as [|[n c] f]; [reflexivity|]. destruct c; reflexivity. }
+  rewrite E, (iter_cols_forget f tc wf E). cbn [obind]. rewrite Hl. unfold forget_frame. rewrite !map_map. cbn [fst snd].
+  rewrite (map_ext (fun x : bytes * column => col_strings (forget_vals (snd x))) (fun x => col_strings (snd x)))
+    by (intros x; apply col_strings_forget). reflexivity.
+Qed.
+
+(* the written frame read back by a reader that declares the types only *)
+Theorem roundtrip_undeclared f tc wf doc e (chunks : list bytes) (t : rterm) :
+  iter_cols f tc = Ok wf ->
+  to_csv format_float f tc = Ok doc ->
+  rt_premises e (frame_len f) (forget_frame wf) = true ->
+  forallb (fun nc => card_ok e (snd nc)) (forget_frame wf) = true ->
+  Forall (fun c : bytes => c <> []) chunks -> concat chunks = doc -> (t = TEofSep \/ t = TEofWith) ->
+  read_csv_buf atoi parse_float atob (read_conf_for e (tc_header tc) (forget_frame wf)) chunks t
+  = Ok (map (fun nc => (fst nc, readback_col e (forget_vals (snd nc)))) wf).
+Proof.
+  intros Hiter Hcsv Hprem Hcard Hne Hcat Ht.
+  assert (frame_len (forget_frame f) = frame_len f) as Hl.
+  { destruct f as [|[n c] f']; [reflexivity|]. destruct c; reflexivity. }
+  rewrite (roundtrip_fragmented (forget_frame f) tc (forget_frame wf) doc e chunks t); try assumption.
+  - unfold forget_frame. rewrite map_map. reflexivity.
+  - apply iter_cols_forget. exact Hiter.
+  - rewrite (to_csv_forget f tc wf Hiter). exact Hcsv.
+  - rewrite Hl. exact Hprem.
+  - apply forallb_forall. intros nc Hnc. unfold forget_frame in Hnc. apply in_map_iff in Hnc as (nc0 & <- & _).
+    cbn [snd]. destruct (snd nc0); reflexivity.
+Qed.
+
 End RoundTrip2.
+
+(* the cardinality premise in terms of the number of distinct cell strings *)
+Lemma first_occ_le_nodup e (cells : list bytes) :
+  (length (first_occ e cells) <= length (nodup (list_eq_dec N.eq_dec) cells))%nat.
+Proof.
+  apply NoDup_incl_length; [apply first_occ_NoDup; constructor|].
+  intros s Hs. apply nodup_In. unfold first_occ in Hs. apply first_occ_incl in Hs as [[]|[Hs _]]. exact Hs.
+Qed.
+
+(* the statement kept open by the first wave (Properties/C13.v C13_nonstrict_enum_full_statement) *)
+Theorem nonstrict_enum_names
+  (format_float : N -> bytes) (parse_float : bytes -> option N)
+  (float_roundtrip : forall x, is_nan_bits x = false ->
+       format_float x <> [] /\ no_cr (format_float x) = true /\ parse_float (format_float x) = Some x)
+  (f : frame) (tc : to_conf) (wf : frame) (doc : bytes) (e : bool) :
+  iter_cols f tc = Ok wf ->
+  to_csv format_float f tc = Ok doc ->
+  rt_premises e (frame_len f) wf = true ->
+  (forall n vals l, In (n, ColEnum vals l) wf -> vals = [] ->
+     (length (nodup (list_eq_dec N.eq_dec) (map (fun o => match o with Some s => s | None => [] end) l))
+      <= enum_max_cardinality)%nat) ->
+  (forall n vals l, In (n, ColEnum vals l) wf -> NoDup vals) ->
+  exists g, read_csv_spec atoi parse_float atob (read_conf_for e (tc_header tc) wf) doc = Ok g /\
+            map fst g = map fst wf.
+Proof.
+  intros Hiter Hcsv Hprem Hcard Hndv.
+  exists (map (fun nc => (fst nc, readback_col e (snd nc))) wf). split.
+  - apply (roundtrip2 format_float parse_float float_roundtrip f); try assumption.
+    + apply forallb_forall. intros [n c] Hnc. cbn [snd].
+      destruct c as [l|l|l|l|[|v vals] l|]; try reflexivity. cbn [card_ok]. apply Nat.leb_le.
+      eapply Nat.le_trans; [apply first_occ_le_nodup|]. apply (Hcard n [] l Hnc eq_refl).
+    + apply forallb_forall. intros [n c] Hnc. cbn [snd].
+      destruct c as [l|l|l|l|vals l|]; try reflexivity. cbn [enum_decl_nodup].
+      apply nodup_values_spec. apply (Hndv n vals l Hnc).
+  - rewrite map_map. reflexivity.
+Qed.
+
+(* the limit is sharp: with more than 255 distinct non-null strings the non-strict reader reports an error *)
+Theorem nonstrict_overflow (parse_float : bytes -> option N) e ev (cells : list bytes) :
+  ev = None \/ ev = Some [] ->
+  (enum_max_cardinality < length (first_occ e cells))%nat ->
+  column_to_data atoi parse_float atob e DEnum ev cells = Fail.
+Proof.
+  intros Hev Hlen. unfold column_to_data. rewrite andb_false_r. cbn iota.
+  assert (match ev with Some v => v | None => [] end = []) as -> by (destruct Hev as [-> | ->]; reflexivity).
+  change (Nat.ltb enum_max_cardinality (length (@nil bytes))) with false. cbn iota.
+  change (Nat.ltb 0 (length (@nil bytes))) with false.
+  rewrite (enum_fill_nonstrict_full e cells [] [] Hlen); [reflexivity|]. cbn. lia.
+Qed.
+
+(* ================================================================ 3. from a physical frame *)
+
+From QF Require Import Model.Json Model.Observe.
+(* Model.Frame is imported last: from here on [frame], [col_len], [frame_len] mean the physical frame; the typed
+   table of Model/CsvSpec.v is written CsvSpec.frame, CsvSpec.col_len, CsvWrite.frame_len *)
+From QF Require Import Model.Frame Model.Filter Model.Ops Model.TableSpec.
+From QF Require Import Proofs.ObserveProofs.
+Local Open Scope nat_scope.
+
+(* the typed columns of Model/CsvSpec.v (what ReadCSV returns, what the typed views return) as a logical
+   table of [n] rows.  ColNone (zero rows, no type) does not occur when the types are declared. *)
+Definition col_cells (c : CsvSpec.column) : list cell :=
+  match c with
+  | ColInt l => map CInt l | ColFloat l => map CFloat l | ColBool l => map CBool l
+  | ColString l => map CStr l | ColEnum _ l => map CEnum l | ColNone => []
+  end.
+
+Definition col_ctype (c : CsvSpec.column) : ctype :=
+  match c with
+  | ColInt _ => TInt | ColFloat _ => TFloat | ColBool _ => TBool | ColString _ => TString
+  | ColEnum _ _ => TEnum | ColNone => TString
+  end.
+
+Definition table_of (n : nat) (g : CsvSpec.frame) : table :=
+  mkTable (map fst g) (map (fun nc => col_ctype (snd nc)) g)
+          (map (fun i => map (fun nc => nth i (col_cells (snd nc)) (CInt 0)) g) (seq 0 n)).
+
+(* the normalisations of the property, cell by cell: null string/enum -> "" (or "" -> null under EmptyNull),
+   every NaN is the one NaN *)
+Definition norm_tcell (e : bool) (c : cell) : cell :=
+  match c with
+  | CStr s => CStr (norm_cell e s)
+  | CEnum s => CEnum (norm_cell e s)
+  | CFloat x => CFloat (canon_float x)
+  | c => c
+  end.
+
+Definition norm_table (e : bool) (t : table) : table :=
+  mkTable (tnames t) (ttypes t) (map (map (norm_tcell e)) (trows t)).
+
+Lemma col_cells_readback e c : col_cells (readback_col e c) = map (norm_tcell e) (col_cells c).
+Proof.
+  destruct c as [l|l|l|l|[|v vals] l|]; cbn [readback_col norm_col col_cells]; rewrite ?map_map; reflexivity.
+Qed.
+
+Lemma col_ctype_readback e c : col_ctype (readback_col e c) = col_ctype c.
+Proof. destruct c as [l|l|l|l|[|v vals] l|]; reflexivity. Qed.
+
+Lemma table_of_readback e n (wf : CsvSpec.frame) :
+  table_of n (map (fun nc => (fst nc, readback_col e (snd nc))) wf) = norm_table e (table_of n wf).
+Proof.
+  unfold table_of, norm_table. cbn [tnames ttypes trows]. rewrite !map_map. cbn [fst snd]. f_equal.
+  - apply map_ext. intros nc. apply col_ctype_readback.
+  - apply map_ext. intros i. rewrite !map_map. apply map_ext. intros nc. cbn [snd].
+    rewrite col_cells_readback. change (CInt 0) with (norm_tcell e (CInt 0)) at 1. apply map_nth.
+Qed.
+
+(* enum cells of an observed column come out of its value table *)
+Definition enum_in_vals (c : CsvSpec.column) : Prop :=
+  match c with
+  | ColEnum vs l => Forall (fun o => match o with Some s => In s vs | None => True end) l
+  | _ => True
+  end.
+
+Lemma enum_cells_in d vs st : forall index zs,
+  omap (cell_at (ECol d vs st)) index = Ok (map CEnum zs) ->
+  Forall (fun o => match o with Some s => In s vs | None => True end) zs.
+Proof.
+  induction index as [|p index IH]; intros zs H.
+  - cbn in H. destruct zs; [constructor | discriminate].
+  - apply omap_cons_ok in H as (y & ys & Hy & Hys & Heq).
+    destruct zs as [|z zs]; [discriminate|]. cbn [map] in Heq. inversion Heq; subst y ys.
+    constructor; [|apply IH; exact Hys].
+    cbn [cell_at] in Hy. destruct (idx d p) as [r| |]; cbn [obind] in Hy; try discriminate.
+    unfold enum_string in Hy. destruct (enum_is_null r).
+    + cbn [obind] in Hy. inversion Hy. exact I.
+    + unfold idx in Hy. destruct (nth_error vs (N.to_nat r)) as [s|] eqn:E; cbn in Hy; [|discriminate].
+      inversion Hy. eapply nth_error_In. exact E.
+Qed.
+
+Lemma typed_column_cells c index cells :
+  omap (cell_at c) index = Ok cells ->
+  exists col, typed_column (col_type c) (enum_values c) cells = Ok col
+              /\ col_cells col = cells /\ col_ctype col = col_type c
+              /\ CsvSpec.col_len col = length cells /\ enum_in_vals col.
+Proof.
+  intro H. pose proof (col_cells_shape c index cells H) as S.
+  destruct c as [d|d|d|d|d vs st]; cbn [col_type] in *; destruct S as (zs & ->); unfold typed_column.
+  - rewrite (omap_prj_inj CInt) by reflexivity. eexists. split; [reflexivity|].
+    cbn [col_cells col_ctype CsvSpec.col_len enum_in_vals]. rewrite map_length. auto.
+  - rewrite (omap_prj_inj CFloat) by reflexivity. eexists. split; [reflexivity|].
+    cbn [col_cells col_ctype CsvSpec.col_len enum_in_vals]. rewrite map_length. auto.
+  - rewrite (omap_prj_inj CBool) by reflexivity. eexists. split; [reflexivity|].
+    cbn [col_cells col_ctype CsvSpec.col_len enum_in_vals]. rewrite map_length. auto.
+  - rewrite (omap_prj_inj CStr) by reflexivity. eexists. split; [reflexivity|].
+    cbn [col_cells col_ctype CsvSpec.col_len enum_in_vals]. rewrite map_length. auto.
+  - rewrite (omap_prj_inj CEnum) by reflexivity. eexists. split; [reflexivity|].
+    cbn [col_cells col_ctype CsvSpec.col_len enum_in_vals enum_values]. rewrite map_length.
+    repeat split. eapply enum_cells_in. exact H.
+Qed.
+
+Lemma zipc_seq (F : nat -> list cell) (d : cell) : forall xs k,
+  zipc xs (map F (seq k (length xs))) = map (fun i => nth (i - k) xs d :: F i) (seq k (length xs)).
+Proof.
+  induction xs as [|x xs IH]; intros k; [reflexivity|].
+  cbn [length seq map zipc]. rewrite Nat.sub_diag. cbn [nth]. f_equal. rewrite IH.
+  apply map_ext_in. intros i Hi. apply in_seq in Hi. replace (i - k) with (S (i - S k)) by lia. reflexivity.
+Qed.
+
+(* the frame as read through the typed views IS the logical table *)
+Lemma observe_cols_table f : forall cs rows,
+  (forall nc, In nc cs -> lookup_col f (fst nc) = Some (snd nc)) ->
+  rows_of cs (ix f) = Ok rows ->
+  exists obs, omap (observe_one f) cs = Ok obs /\ map fst obs = map fst cs
+    /\ map (fun nc => col_ctype (snd nc)) obs = col_types cs
+    /\ Forall (fun o => CsvSpec.col_len (snd o) = length (ix f)) obs
+    /\ Forall (fun o => enum_in_vals (snd o)) obs
+    /\ rows = map (fun i => map (fun nc => nth i (col_cells (snd nc)) (CInt 0)) obs) (seq 0 (length (ix f))).
+Proof.
+  induction cs as [|[n c] cs IH]; intros rows Hlk Hrows.
+  - rewrite rows_of_nil in Hrows. inversion Hrows; subst. exists []. repeat split; try constructor.
+    clear. generalize 0. induction (ix f) as [|p l IH]; intros k; [reflexivity|]. cbn [map length seq]. f_equal. apply IH.
+  - apply rows_of_cons in Hrows as (xs & rows' & Hxs & Hrows' & ->).
+    destruct (IH rows') as (obs & Hobs & Hnames & Htypes & Hlens & Henum & Hrec);
+      [intros nc Hin; apply Hlk; right; exact Hin|exact Hrows'|].
+    destruct (typed_column_cells c (ix f) xs Hxs) as (col & Hcol & Hcells & Hty & Hlen & Hin).
+    assert (Hone : observe_one f (n, c) = Ok (n, col)).
+    { pose proof (Hlk (n, c) (or_introl eq_refl)) as Hl. cbn [fst snd] in Hl.
+      unfold observe_one, observe_named, get_view. cbn [fst snd].
+      rewrite Hl. rewrite ctype_eqb_refl. cbn [obind].
+      rewrite (view_items_slice (mkView c (ix f)) xs Hxs). cbn [obind v_col]. rewrite Hcol. reflexivity. }
+    assert (Hxl : length xs = length (ix f)) by (apply (omap_len _ _ _ Hxs)).
+    exists ((n, col) :: obs). split; [|split; [|split; [|split; [|split]]]].
+    + cbn [omap]. rewrite Hone. cbn [obind]. rewrite Hobs. reflexivity.
+    + cbn [map fst]. f_equal. exact Hnames.
+    + cbn [map snd]. unfold col_types in *. cbn [map snd]. rewrite Hty, Htypes. reflexivity.
+    + constructor; [|exact Hlens]. cbn [snd]. rewrite Hlen. exact Hxl.
+    + constructor; [exact Hin | exact Henum].
+    + rewrite Hrec. rewrite <- Hxl. rewrite (zipc_seq _ (CInt 0)). apply map_ext. intros i.
+      cbn [map snd]. rewrite Hcells, Nat.sub_0_r. reflexivity.
+Qed.
+
+Theorem observe_table f t :
+  abs f = Ok t -> NoDup (col_names f) ->
+  exists o, observe_frame f = Ok o /\ table_of (length (ix f)) o = t
+    /\ Forall (fun nc => CsvSpec.col_len (snd nc) = length (ix f)) o
+    /\ Forall (fun nc => enum_in_vals (snd nc)) o.
+Proof.
+  intros Ht Hnd. destruct (abs_ok f t Ht) as (R & N & T).
+  destruct (observe_cols_table f (cols f) (trows t)) as (obs & Hobs & Hnames & Htypes & Hlens & Henum & Hrows);
+    [intros nc Hin; apply lookup_col_nodup; assumption|exact R|].
+  exists obs. split; [exact Hobs|]. split; [|split; assumption].
+  unfold table_of. rewrite Hnames, Htypes, <- Hrows. fold (col_names f). rewrite <- N, <- T.
+  destruct t; reflexivity.
+Qed.
+
+(* ---------------------------------------------------------------- Columns(order) *)
+
+Lemma find_col_some name : forall (o : CsvSpec.frame) nc, find_col name o = Some nc -> In nc o /\ fst nc = name.
+Proof.
+  induction o as [|[n c] o IH]; intros nc H; [discriminate|]. cbn [find_col] in H.
+  destruct (bytes_eqb n name) eqn:E.
+  - inversion H; subst. apply bytes_eqb_spec in E. split; [left; reflexivity | exact E].
+  - apply IH in H as [H1 H2]. split; [right; exact H1 | exact H2].
+Qed.
+
+Lemma iter_cols_order (o : CsvSpec.frame) : forall order wf,
+  omap (fun name => match find_col name o with Some nc => Ok nc | None => Fail end) order = Ok wf ->
+  map fst wf = order /\ forall nc, In nc wf -> In nc o.
+Proof.
+  induction order as [|name order IH]; intros wf H.
+  - cbn in H. inversion H. split; [reflexivity | intros nc []].
+  - apply omap_cons_ok in H as (y & ys & Hy & Hys & ->).
+    destruct (find_col name o) as [nc|] eqn:F; [|discriminate]. inversion Hy; subst y.
+    apply find_col_some in F as [F1 F2]. destruct (IH ys Hys) as [I1 I2]. split.
+    + cbn [map]. rewrite F2, I1. reflexivity.
+    + intros x [<-|Hx]; [exact F1 | apply I2; exact Hx].
+Qed.
+
+(* the columns written: the frame's own, or for Columns(order) the frame's column of each listed name *)
+Lemma iter_cols_spec (o : CsvSpec.frame) tc wf :
+  iter_cols o tc = Ok wf ->
+  (forall nc, In nc wf -> In nc o) /\ length wf = length o /\
+  match tc_columns tc with None => wf = o | Some order => map fst wf = order end.
+Proof.
+  unfold iter_cols. destruct (tc_columns tc) as [order|].
+  - destruct (Nat.eqb (length order) (length o)) eqn:L; cbn [negb]; [|discriminate].
+    intros H. apply iter_cols_order in H as [H1 H2]. apply Nat.eqb_eq in L.
+    split; [exact H2|]. split; [|exact H1]. rewrite <- L, <- H1, map_length. reflexivity.
+  - intros H. inversion H. auto.
+Qed.
+
+Lemma rt_premises_written e n (o wf : CsvSpec.frame) tc :
+  iter_cols o tc = Ok wf ->
+  rt_premises e n o = true ->
+  (forall order, tc_columns tc = Some order -> has_dup order = false) ->
+  rt_premises e n wf = true.
+Proof.
+  intros Hit Hp Hord. destruct (iter_cols_spec o tc wf Hit) as (Hsub & Hlen & Hnames).
+  unfold rt_premises in *. apply andb_true_iff in Hp as [Hp Hdup]. apply andb_true_iff in Hp as [Hne Hall].
+  apply andb_true_iff. split; [apply andb_true_iff; split|].
+  - destruct o; [discriminate|]. destruct wf; [discriminate | reflexivity].
+  - rewrite forallb_forall in *. intros nc Hnc. apply Hall. apply Hsub. exact Hnc.
+  - destruct (tc_columns tc) as [order|] eqn:T.
+    + rewrite Hnames, (Hord order eq_refl). reflexivity.
+    + subst wf. exact Hdup.
+Qed.
+
+(* a value table without values: every cell is null, so at most the empty string is derived *)
+Lemma card_ok_observed e c : enum_in_vals c -> card_ok e c = true.
+Proof.
+  destruct c as [l|l|l|l|[|v vals] l|]; intros H; try reflexivity.
+  cbn [enum_in_vals] in H. cbn [card_ok]. apply Nat.leb_le.
+  assert (incl (first_occ e (map opt_str l)) [[]]) as Hincl.
+  { intros s Hs. unfold first_occ in Hs. apply first_occ_incl in Hs as [[]|[Hs _]].
+    apply in_map_iff in Hs as (o & <- & Ho). rewrite Forall_forall in H. specialize (H o Ho).
+    destruct o as [s|]; [destruct H | left; reflexivity]. }
+  apply NoDup_incl_length in Hincl; [|apply first_occ_NoDup; constructor].
+  cbn [length] in Hincl. unfold enum_max_cardinality. lia.
+Qed.
+
+(* the premises on the physical frame, as a computable check: the frame as observed through its views has at
+   least one column, valid distinct names without CR, no CR in strings, null enum cells readable, enum value
+   tables without a repeated value *)
+Definition phys_premises (e : bool) (f : frame) : bool :=
+  match observe_frame f with
+  | Ok o => rt_premises e (length (ix f)) o && forallb (fun nc => enum_decl_nodup (snd nc)) o
+  | _ => false
+  end.
+
+Section Physical.
+Variable format_float : N -> bytes.
+Variable parse_float : bytes -> option N.
+Hypothesis float_roundtrip : forall x,
+  is_nan_bits x = false ->
+  format_float x <> [] /\ no_cr (format_float x) = true /\ parse_float (format_float x) = Some x.
+
+Theorem roundtrip_physical (f : frame) (t : table) tc doc e (chunks : list bytes) (term : rterm) :
+  abs f = Ok t -> NoDup (col_names f) ->
+  phys_premises e f = true ->
+  (forall order, tc_columns tc = Some order -> has_dup order = false) ->
+  frame_to_csv format_float f tc = Ok doc ->
+  Forall (fun c : bytes => c <> []) chunks -> concat chunks = doc -> (term = TEofSep \/ term = TEofWith) ->
+  exists o wf g,
+    observe_frame f = Ok o /\ table_of (length (ix f)) o = t /\
+    iter_cols o tc = Ok wf /\ (forall nc, In nc wf -> In nc o) /\
+    match tc_columns tc with None => wf = o | Some order => map fst wf = order end /\
+    read_csv_buf atoi parse_float atob (read_conf_for e (tc_header tc) wf) chunks term = Ok g /\
+    g = map (fun nc => (fst nc, readback_col e (snd nc))) wf /\
+    table_of (length (ix f)) g = norm_table e (table_of (length (ix f)) wf).
+Proof.
+  intros Ht Hnd Hprem Hord Hcsv Hne Hcat Hterm.
+  destruct (observe_table f t Ht Hnd) as (o & Hobs & Htab & Hlens & Henum).
+  unfold phys_premises in Hprem. rewrite Hobs in Hprem. apply andb_true_iff in Hprem as [Hprem Hndo].
+  unfold frame_to_csv in Hcsv. rewrite Hobs in Hcsv. cbn [obind] in Hcsv.
+  destruct (iter_cols o tc) as [wf| |] eqn:Hit;
+    try (unfold to_csv, to_csv_records in Hcsv; rewrite Hit in Hcsv; discriminate).
+  destruct (iter_cols_spec o tc wf Hit) as (Hsub & Hlen & Hnames).
+  pose proof (rt_premises_written e _ o wf tc Hit Hprem Hord) as Hpw.
+  assert (CsvWrite.frame_len o = length (ix f)) as Hn.
+  { destruct o as [|[n0 c0] o']; [discriminate Hprem|]. inversion Hlens; subst. assumption. }
+  exists o, wf, (map (fun nc => (fst nc, readback_col e (snd nc))) wf).
+  split; [exact Hobs|]. split; [exact Htab|]. split; [exact Hit|]. split; [exact Hsub|]. split; [exact Hnames|].
+  split; [|split; [reflexivity | apply table_of_readback]].
+  apply (roundtrip_fragmented format_float parse_float float_roundtrip o tc wf doc e chunks term); try assumption.
+  - rewrite Hn. exact Hpw.
+  - apply forallb_forall. intros nc Hnc. apply card_ok_observed.
+    rewrite Forall_forall in Henum. apply Henum. apply Hsub. exact Hnc.
+  - apply forallb_forall. intros nc Hnc. rewrite forallb_forall in Hndo. apply Hndo. apply Hsub. exact Hnc.
+Qed.
+
+(* without Columns(order): the table read back is the logical table of the frame, normalised *)
+Corollary roundtrip_physical_table (f : frame) (t : table) hdr doc e (chunks : list bytes) (term : rterm) :
+  abs f = Ok t -> NoDup (col_names f) ->
+  phys_premises e f = true ->
+  frame_to_csv format_float f (mkToConf hdr None) = Ok doc ->
+  Forall (fun c : bytes => c <> []) chunks -> concat chunks = doc -> (term = TEofSep \/ term = TEofWith) ->
+  exists o g,
+    observe_frame f = Ok o /\
+    read_csv_buf atoi parse_float atob (read_conf_for e hdr o) chunks term = Ok g /\
+    table_of (length (ix f)) g = norm_table e t.
+Proof.
+  intros Ht Hnd Hprem Hcsv Hne Hcat Hterm.
+  destruct (roundtrip_physical f t (mkToConf hdr None) doc e chunks term Ht Hnd Hprem) as
+    (o & wf & g & H1 & H2 & H3 & H4 & H5 & H6 & H7 & H8); try assumption; [intros order H; discriminate|].
+  cbn [tc_columns tc_header] in *. subst wf. exists o, g. split; [exact H1|]. split; [exact H6|].
+  rewrite H8, H2. reflexivity.
+Qed.
+
+End Physical.
+
+(* ---------------------------------------------------------------- Columns(order) is Select on the table *)
+
+Lemma last_pos_notin name : forall names pos acc, ~ In name names -> last_pos_from name names pos acc = acc.
+Proof.
+  induction names as [|n names IH]; intros pos acc H; [reflexivity|]. cbn [last_pos_from].
+  rewrite IH by (intros Hin; apply H; right; exact Hin).
+  destruct (bytes_eqb n name) eqn:E; [|reflexivity]. apply bytes_eqb_spec in E. exfalso. apply H. left. exact E.
+Qed.
+
+Lemma last_pos_find name nc : forall (o : CsvSpec.frame) pos acc,
+  NoDup (map fst o) -> find_col name o = Some nc ->
+  exists p, last_pos_from name (map fst o) pos acc = Some (pos + p) /\ nth_error o p = Some nc.
+Proof.
+  induction o as [|[n c] o IH]; intros pos acc Hnd H; [discriminate|].
+  cbn [find_col] in H. cbn [map fst last_pos_from]. inversion Hnd as [|? ? Hnot Hnd']; subst.
+  destruct (bytes_eqb n name) eqn:E.
+  - inversion H; subst. apply bytes_eqb_spec in E. subst n. exists 0. rewrite Nat.add_0_r.
+    split; [apply last_pos_notin; exact Hnot | reflexivity].
+  - destruct (IH (S pos) acc Hnd' H) as (p & H1 & H2). exists (S p). split; [|exact H2].
+    rewrite H1. f_equal. lia.
+Qed.
+
+Lemma nth_map_nth_error {A B} (g : A -> B) (l : list A) p x d : nth_error l p = Some x -> nth p (map g l) d = g x.
+Proof.
+  revert p. induction l as [|y l IH]; intros [|p] H; try discriminate.
+  - inversion H. reflexivity.
+  - cbn [map nth]. apply IH. exact H.
+Qed.
+
+Theorem columns_order_is_select n (o wf : CsvSpec.frame) tc order :
+  NoDup (map fst o) -> order <> [] -> tc_columns tc = Some order ->
+  iter_cols o tc = Ok wf ->
+  tselect (table_of n o) order = Some (table_of n wf).
+Proof.
+  intros Hnd Hne Htc Hit. unfold iter_cols in Hit. rewrite Htc in Hit.
+  destruct (negb (Nat.eqb (length order) (length o))); [discriminate|].
+  assert (exists ps, tpositions (table_of n o) order = Some ps /\ map fst wf = order
+                     /\ Forall2 (fun p nc => nth_error o p = Some nc) ps wf) as (ps & Hps & Hnames & HF).
+  { clear Hne Htc. revert wf Hit. induction order as [|name order IH]; intros wf Hit.
+    - cbn in Hit. inversion Hit. exists []. repeat split. constructor.
+    - apply omap_cons_ok in Hit as (y & ys & Hy & Hys & ->).
+      destruct (find_col name o) as [nc|] eqn:F; [|discriminate]. inversion Hy; subst y.
+      destruct (IH ys Hys) as (ps & H1 & H2 & H3).
+      destruct (last_pos_find name nc o 0 None Hnd F) as (p & P1 & P2).
+      exists (p :: ps). cbn [tpositions]. unfold tpos. cbn [table_of tnames]. rewrite P1.
+      fold (table_of n o). rewrite H1. split; [reflexivity|]. split.
+      + cbn [map]. rewrite H2. apply find_col_some in F as [_ F]. rewrite F. reflexivity.
+      + constructor; assumption. }
+  unfold tselect. destruct order as [|name0 order0]; [congruence|]. rewrite Hps.
+  f_equal. unfold table_of. cbn [ttypes trows]. rewrite Hnames. f_equal.
+  - clear Hps Hnames Hit. induction HF as [|p nc ps wf' Hp _ IH]; [reflexivity|]. cbn [map]. rewrite IH. f_equal.
+    apply (nth_map_nth_error (fun nc : bytes * column => col_ctype (snd nc)) o p nc TInt Hp).
+  - rewrite map_map. apply map_ext. intros i.
+    clear Hps Hnames Hit. induction HF as [|p nc ps wf' Hp _ IH]; [reflexivity|]. cbn [map]. rewrite IH. f_equal.
+    apply (nth_map_nth_error (fun nc : bytes * column => nth i (col_cells (snd nc)) (CInt 0)) o p nc (CInt 0) Hp).
+Qed.
+
+Section PhysicalColumns.
+Variable format_float : N -> bytes.
+Variable parse_float : bytes -> option N.
+Hypothesis float_roundtrip : forall x,
+  is_nan_bits x = false ->
+  format_float x <> [] /\ no_cr (format_float x) = true /\ parse_float (format_float x) = Some x.
+
+(* with Columns(order), order duplicate-free: the table read back is Select(order...) of the logical table *)
+Corollary roundtrip_physical_columns (f : frame) (t : table) hdr order doc e (chunks : list bytes) (term : rterm) :
+  abs f = Ok t -> NoDup (col_names f) ->
+  phys_premises e f = true -> has_dup order = false ->
+  frame_to_csv format_float f (mkToConf hdr (Some order)) = Ok doc ->
+  Forall (fun c : bytes => c <> []) chunks -> concat chunks = doc -> (term = TEofSep \/ term = TEofWith) ->
+  exists o wf g t',
+    observe_frame f = Ok o /\ iter_cols o (mkToConf hdr (Some order)) = Ok wf /\
+    tselect t order = Some t' /\
+    read_csv_buf atoi parse_float atob (read_conf_for e hdr wf) chunks term = Ok g /\
+    table_of (length (ix f)) g = norm_table e t'.
+Proof.
+  intros Ht Hnd Hprem Hord Hcsv Hne Hcat Hterm.
+  destruct (roundtrip_physical format_float parse_float float_roundtrip f t (mkToConf hdr (Some order)) doc e chunks term
+              Ht Hnd Hprem) as (o & wf & g & H1 & H2 & H3 & H4 & H5 & H6 & H7 & H8); try assumption.
+  { intros order' H. inversion H; subst. exact Hord. }
+  cbn [tc_columns tc_header] in *.
+  destruct (iter_cols_spec o _ wf H3) as (_ & Hlen & _).
+  assert (o <> []) as Hone.
+  { unfold phys_premises in Hprem. rewrite H1 in Hprem. destruct o; [discriminate Hprem | discriminate]. }
+  assert (order <> []) as Hon.
+  { rewrite <- H5. destruct wf; [|discriminate]. destruct o; [congruence | discriminate Hlen]. }
+  assert (NoDup (map fst o)) as Hndo.
+  { destruct (abs_ok f t Ht) as (_ & N & _). rewrite <- H2 in N. cbn [table_of tnames] in N. rewrite N. exact Hnd. }
+  exists o, wf, g, (table_of (length (ix f)) wf).
+  split; [exact H1|]. split; [exact H3|]. split; [|split; [exact H6 | exact H8]].
+  rewrite <- H2. apply (columns_order_is_select _ o wf (mkToConf hdr (Some order)) order); auto.
+Qed.
+
+End PhysicalColumns.
